@@ -283,7 +283,10 @@ func c11Drive(args []string) int {
 				t = []string{"k", "j", "*", "p:m"}[r.Intn(4)]
 			}
 			pr := preds[r.Intn(len(preds))]
-			if t == "text()" || t == "node()" {
+			upward := ax == "self::" || ax == "parent::" || ax == "ancestor::" || ax == "ancestor-or-self::"
+			if t == "text()" || t == "node()" || (t == "*" && upward) {
+				// (also: the reference reports "" as the string value of the *document* node, which `*` reaches on the
+				// self / parent / ancestor axes)
 				// the reference DOM's navigator reports "" as the string value of character data (xmlquery v1.3.1,
 				// query.go Value()): predicates on the string value of text nodes are not comparable and not generated
 				pr = []string{"", "[1]", "[last()]", "[position()>1]"}[r.Intn(4)]
